@@ -215,4 +215,12 @@ example : isDecidedMsg c02Cfg (c02Msg tCommit 1 2 [1, 1, 3] 14 2) = true ∧ ¬ 
     isDecidedMsg c02Cfg (c02Msg tCommit 1 2 [1, 3, 4] 14 7) = true ∧ hashData (c02Msg tCommit 1 2 [1, 3, 4] 14 7).fullData ≠ (c02Msg tCommit 1 2 [1, 3, 4] 14 7).root := by
   decide
 
+/-- PRODUCTION WIRING of the controller (operator/validator/controller.go `SetupRunners`, closure `buildController`): the qbft.Config a
+    real node runs with has `SignatureVerification: true` unconditionally, a `ProposerF` that answers
+    `specqbft.RoundRobinProposer(state, round)` for the round ASKED about, the role's value check, the default domain and the
+    identifier built from it — the configuration the model's `Cfg` assumes (`verifySig` consulted, `proposer h r`). The harness
+    exercises exactly these objects in its production-config cases (harness/cmd/qbft/prodcfg.go). -/
+theorem C02_tie_production_wiring :
+    Gen.has_qbft_SetupRunners = [true, true, true, true, true, true, true] := by decide
+
 end Ssv.Qbft
